@@ -13,4 +13,33 @@ theorem pgp_canon_split_independent (t : SigType) (a b : List Bytes) (h : a.flat
 
 example : signHashed .text [[97, 13], [10, 98, 10]] = signHashed .text [[97, 13, 10, 98], [10]] := by decide
 
+/-- **pgp_pipe_transform_all_or_nothing.**  For input that cannot be rewound (a pipe) the PGP transform either refuses or
+    uploads exactly the input: never a prefix.  (The limit test must fire when the LimitReader was exhausted: with `>` in
+    place of `=` it could never fire and every longer input would be cut to its first 10,000,000 bytes.) -/
+theorem pgp_pipe_transform_all_or_nothing (input s : Bytes) (h : pipeTransform input = some s) :
+    s = input ∧ input.length < maxStreamClearSignSize := by
+  unfold pipeTransform at h
+  simp only at h
+  split at h
+  · cases h
+  · rename_i hne
+    simp only [Option.some.injEq] at h
+    have hl : (input.take maxStreamClearSignSize).length = min maxStreamClearSignSize input.length := List.length_take
+    have : input.length < maxStreamClearSignSize := by
+      rw [hl] at hne
+      omega
+    refine ⟨?_, this⟩
+    rw [← h]
+    exact List.take_of_length_le (by omega)
+
+/-- the driver's length-only form agrees with it -/
+theorem pipeTransformLen_spec (input : Bytes) :
+    pipeTransformLen input.length = (pipeTransform input).map List.length := by
+  unfold pipeTransformLen pipeTransform
+  have hl : (input.take maxStreamClearSignSize).length = min maxStreamClearSignSize input.length := List.length_take
+  simp only [hl, Nat.min_comm]
+  split <;> simp [*]
+
+example : pipeTransformLen 9999999 = some 9999999 ∧ pipeTransformLen 10000000 = none ∧ pipeTransformLen 10004096 = none := by decide
+
 end Relic.Props.C09
